@@ -27,8 +27,8 @@ structure PInv (ex : Pid → Prop) (fr : Pid → Option Frame) (w : World) : Pro
   ap : ∀ p, procAw w p = [] ∨ ∃ q, fr p = some (.waitProc q) ∧ procAw w p = [.proc q]
   /-- … at most one event, and only while suspended in `wait_event` on it -/
   ae : ∀ p, evAw w p = [] ∨ ∃ h, fr p = some (.waitEvent h) ∧ evAw w p = [.event h]
-  /-- only running processes await anything -/
-  ar : ∀ p, (w.proc p).status ≠ .running → (w.proc p).awaits = []
+  /-- only running processes await a process or an event -/
+  ar : ∀ p, (w.proc p).status ≠ .running → procAw w p = [] ∧ evAw w p = []
   /-- the logical frame is the recorded one wherever it matters -/
   fb : ∀ p, (w.proc p).blocked ≠ fr p → procAw w p = [] ∧ evAw w p = []
   /-- I_waiters: a registered waiter awaits that process -/
@@ -69,7 +69,7 @@ theorem PInv.congr {ex : Pid → Prop} {fr : Pid → Option Frame} {w w' : World
   ei := hei
   ap := fun p => by rw [procAw_congr hc]; exact hp.ap p
   ae := fun p => by rw [evAw_congr hc]; exact hp.ae p
-  ar := fun p h => by rw [(hc p).1]; exact hp.ar p (by rw [← (hc p).2.2.1]; exact h)
+  ar := fun p h => by rw [procAw_congr hc, evAw_congr hc]; exact hp.ar p (by rw [← (hc p).2.2.1]; exact h)
   fb := fun p h => by rw [procAw_congr hc, evAw_congr hc]; exact hp.fb p (by rw [← (hc p).2.2.2]; exact h)
   w1 := fun p q h hx => by rw [(hc q).1]; exact hp.w1 p q (by rw [← (hc p).2.1]; exact h) hx
   wn := fun p => by rw [(hc p).2.1]; exact hp.wn p
@@ -268,7 +268,7 @@ theorem PInv.popWake {ex : Pid → Prop} {fr : Pid → Option Frame} {w w1 : Wor
   refine { ei := pushAll_evinv _ hei,
            ap := fun x => by rw [procAw_congr hsc]; exact hp.ap x,
            ae := fun x => by rw [evAw_congr hsc]; exact hp.ae x,
-           ar := fun x hx => by rw [hpr] at hx ⊢; exact hp.ar x hx,
+           ar := fun x hx => by rw [procAw_congr hsc, evAw_congr hsc]; rw [hpr] at hx; exact hp.ar x hx,
            fb := fun x hx => by rw [procAw_congr hsc, evAw_congr hsc]; rw [hpr] at hx; exact hp.fb x hx,
            w1 := fun x q hq hx => by rw [hpr] at hq ⊢; exact hp.w1 x q hq hx,
            wn := fun x => by rw [hpr]; exact hp.wn x,
